@@ -255,7 +255,7 @@ ARENA = {
     'C07': dict(
         x=['panic', 'block-contents-changed', 'base-allocator-ledger', 'stats-identity', 'live-blocks-overlap'],
         mism=['result-kind', 'base-allocator-events', 'stats'],
-        colls_x=['overflow:', 'a failed reserve', 'capacity: a failed'],
+        colls_x=['overflow:', 'a failed reserve', 'capacity: a failed', 'although the length would overflow', 'the crate panicked in a try_'],
         colls_mism=[' capacity '],
         search_x=True,
         note='arena-level failure theorems proved; collection level: for BumpVec / FixedBumpVec / MutBumpVec(Rev) the capacity model VecCap.v is proved atomic (a failed reserve / push / extend leaves length and capacity as they were; overflowing requests are errors without an allocator call) and replayed from capacity histories with injected refusals; PARTIAL: strings and the contents after a failure are probed on the implementation only'),
@@ -292,8 +292,8 @@ ARENA.update({
     'C18': dict(
         x=['position-not-multiple-of-min-align', 'scoped-aligned-exit-not-exactly-entry-position', 'block-contents-changed',
            'block-misaligned', 'live-blocks-overlap', 'panic'],
-        mism=['stats', 'result-block'],
-        note='PARTIAL: entry/exit alignment proved; with_settings panic conditions and compile-time rejections not modelled'),
+        mism=['stats', 'result-block', 'settings-conversion'],
+        note='entry/exit alignment and invariant preservation proved; the run-time checks of the settings conversions (Conv.conversion_panics) are a transcription of ensure_(scope_)satisfies_settings, proved to panic exactly when the target type requires an unclaimed / allocated arena that is not, and compared with the implementation on the complete matrix state x GUARANTEED_ALLOCATED x CLAIMABLE x MIN_ALIGN x conversion; the compile-time rejections are the const-assert tables of C04'),
 })
 # properties that need the extended harness (claims, aligned regions, prepared slices, dyn entry points)
 ARENA_X = {'C14', 'C15', 'C17', 'C18'}
@@ -478,7 +478,9 @@ def check_arena(ctx):
                 if rc_ is not None:
                     for (b, case, xl) in rc_['implx']:
                         if any(k in xl for k in conf['colls_x']):
-                            ctx.violations.append({'kind': 'colls-probe', 'build': b, 'what_fails': xl, 'signature': 'colls:' + re.sub(r'[0-9]+', 'N', xl)[:80]})
+                            hist = case if (case and case.startswith('V ') and 'cap history' in xl) else None
+                            ctx.violations.append({'kind': 'colls-case' if hist else 'colls-probe', 'build': b, 'case': hist, 'what_fails': xl,
+                                                   'signature': 'colls:' + re.sub(r'[0-9]+', 'N', xl)[:80]})
                     for (b, rc, case, err) in rc_.get('crashes', []):
                         ctx.violations.append({'kind': 'colls-case', 'build': b, 'case': case,
                                                'what_fails': 'the process died (exit status %d: %s) while the crate executed this capacity history of a BumpVec / FixedBumpVec through its safe API' % (rc, err.strip()[-120:]),
